@@ -87,6 +87,17 @@ def check(ctx, rule: str = "name-resolution") -> None:
         if e.term != spec:
             probs.append((f"_resolve_column handles a Vector spec by `{show(e.term, it)[:70]}`: a column given as a vector must be used "
                           f"as given (a derived vector that keeps a column's name is NOT that column)", e.node))
+    # a vector given as ONE column is one-dimensional: a table (a 2-D vector - its elements are its COLUMNS) handed on as a column
+    # would be read row for column by every caller (aggregate / window arguments, sort keys, join keys)
+    two_d = lambda c: c[0] == "cmp" and c[1] in ("Eq", "NotEq", "Lt", "GtE", "Gt", "LtE") and any(
+        x == ("call", ("attr", spec, "ndims"), (), ()) for x in (c[2], c[3]))
+    for e in vec_rets:
+        guarded = any(two_d(c) or (c[0] == "call" and c[1] == ("name", "isinstance") and c[2][0] == spec and c[2][1] == ("name", "Table"))
+                      for c, pol in flatten_conds(e.conds))
+        if e.term == spec and not guarded:
+            probs.append(("_resolve_column hands a two-dimensional vector (a table) on as ONE column: its elements are its columns, so "
+                          "t.aggregate(over='g', sum_over=t['x', 'y']) reads column i where row i is meant (nested rows, wrong counts)",
+                          e.node))
     for e in rets:
         if any(t[0] == "attr" and t[2] in ("_column_map", "_current_column_map") for t in subterms(e.term)):
             probs.append(("_resolve_column answers from the sanitised accessor map", e.node))
